@@ -16,46 +16,46 @@ import (
 )
 
 type PropConfig struct {
-	ID        string   `json:"id"`
-	Packages  []string `json:"packages"`
-	Explain   string   `json:"explanation"`
-	NotDecided []string `json:"not_decided"`
-	Assumes   []string `json:"assumptions"`
-	FieldGuardPkgs []string `json:"fieldguard_packages"`
-	Env       map[string]string `json:"env"`
-	Bounded   []BoundedSpec     `json:"bounded"`
+	ID             string            `json:"id"`
+	Packages       []string          `json:"packages"`
+	Explain        string            `json:"explanation"`
+	NotDecided     []string          `json:"not_decided"`
+	Assumes        []string          `json:"assumptions"`
+	FieldGuardPkgs []string          `json:"fieldguard_packages"`
+	Env            map[string]string `json:"env"`
+	Bounded        []BoundedSpec     `json:"bounded"`
 }
 
 type CheckConfig struct {
-	Property string
-	Tier     string
-	Seed     int64
-	Repo     string
-	Verif    string
-	Only     string // substring filter on obligation names (debug)
-	KeepSMT  bool
-	Verbose  bool
-	NoBaseline bool
-	Overlay  map[string][]byte // file path -> replacement content (selftest mutants only)
-	EvidenceDir string         // where to write evidence (default <verif>/evidence)
-	Quiet    bool
+	Property    string
+	Tier        string
+	Seed        int64
+	Repo        string
+	Verif       string
+	Only        string // substring filter on obligation names (debug)
+	KeepSMT     bool
+	Verbose     bool
+	NoBaseline  bool
+	Overlay     map[string][]byte // file path -> replacement content (selftest mutants only)
+	EvidenceDir string            // where to write evidence (default <verif>/evidence)
+	Quiet       bool
 }
 
 type OblResult struct {
-	Name    string  `json:"name"`
-	Kind    string  `json:"kind"`
-	Fn      string  `json:"function"`
-	Where   string  `json:"where"`
-	Text    string  `json:"text"`
-	Status  string  `json:"status"`
-	Solver  string  `json:"solver"`
-	Seconds float64 `json:"seconds"`
-	Hash    string  `json:"vc_hash"`
-	Bytes   int     `json:"smt_bytes"`
-	NHyps   int     `json:"hypotheses"`
-	script  string
-	obl     *Obligation
-	res     SolveResult
+	Name      string  `json:"name"`
+	Kind      string  `json:"kind"`
+	Fn        string  `json:"function"`
+	Where     string  `json:"where"`
+	Text      string  `json:"text"`
+	Status    string  `json:"status"`
+	Solver    string  `json:"solver"`
+	Seconds   float64 `json:"seconds"`
+	Hash      string  `json:"vc_hash"`
+	Bytes     int     `json:"smt_bytes"`
+	NHyps     int     `json:"hypotheses"`
+	script    string
+	obl       *Obligation
+	res       SolveResult
 	presolved bool
 }
 
@@ -71,12 +71,12 @@ type Baseline struct {
 }
 
 type KnownFinding struct {
-	Property   string `json:"property"`
-	Obligation string `json:"obligation"`
-	What       string `json:"what"`
-	Status     string `json:"status"` // open | fixed
-	Commit     string `json:"commit,omitempty"`
-	Demo       string `json:"demo,omitempty"`
+	Property   string   `json:"property"`
+	Obligation string   `json:"obligation"`
+	What       string   `json:"what"`
+	Status     string   `json:"status"` // open | fixed
+	Commit     string   `json:"commit,omitempty"`
+	Demo       string   `json:"demo,omitempty"`
 	AlsoIn     []string `json:"also_in,omitempty"` // other properties whose check contains the same obligation
 }
 
@@ -603,13 +603,13 @@ func writeEvidence(cfg *CheckConfig, pc *PropConfig, eng *Engine, results []*Obl
 			// recorded as open known findings (listed under known_finding_obligations, never counted as proved)
 			"obligations": len(results) - knownAmong(results), "discharged": discharged,
 			"generated_obligations": len(results), "known_finding_obligations": append([]string{}, knownHits...),
-			"checker_cmd": fmt.Sprintf("bin/govc check --property %s --tier %s", cfg.Property, cfg.Tier),
-			"trusted_base": trusted,
+			"checker_cmd":              fmt.Sprintf("bin/govc check --property %s --tier %s", cfg.Property, cfg.Tier),
+			"trusted_base":             trusted,
 			"functions_under_contract": fnNames, "functions": fnCount,
 			"by_backend": solverCount, "solver_seconds": round3(solverSecs), "load_seconds": round3(loadS),
 			"undecided": undecided, "samples": samples, "all_obligations": all,
 			"vacuity_covers": map[string]interface{}{"functions": len(covers), "exit_reachable_sat": coverOK},
-			"explanation": pc.Explain, "not_decided": pc.NotDecided,
+			"explanation":    pc.Explain, "not_decided": pc.NotDecided,
 			"bounded": append([]string{}, boundedReports...),
 		},
 		"assumptions": ass, "wall_s": round3(wall), "violations": violations,
